@@ -70,6 +70,9 @@ type c21case struct {
 	Replicas int    `json:"replicas"`
 	API      string `json:"api"`   // Do DoMulti DoCache DoMultiCache DoStream DoMultiStream Receive SReceive DoKeyless
 	Batch    string `json:"batch"` // classes of the commands, e.g. "rw"
+	// ExpireAt k>0 (DoMulti only, ConnLifetime set): the first batch a data node receives is executed up to command k-1;
+	// command k and the following ones are answered errConnExpired (the connection's lifetime ended), once.
+	ExpireAt int `json:"expire_at,omitempty"`
 }
 
 type c21send struct {
@@ -85,6 +88,7 @@ type c21env struct {
 	selCands []string // candidate list of the latest selector call
 	selCalls int
 	selIdx   int
+	expired  bool
 }
 
 func (e *c21env) rec(addr, api string, argv []string) {
@@ -185,7 +189,17 @@ func (e *c21env) connFn(dst string, _ *ClientOption) conn {
 	}
 	m.DoMultiFn = func(multi ...Completed) *redisresults {
 		res := &redisresults{s: make([]RedisResult, len(multi))}
+		e.mu.Lock()
+		cut := len(multi)
+		if k := e.c.ExpireAt; k > 0 && !e.expired && len(multi) >= k {
+			e.expired, cut = true, k-1
+		}
+		e.mu.Unlock()
 		for i, c := range multi {
+			if i >= cut {
+				res.s[i] = NewErrorResult(errConnExpired) // not executed: the connection's lifetime ended first
+				continue
+			}
 			e.rec(dst, "DoMulti", c.Commands())
 			res.s[i] = ok
 		}
@@ -224,6 +238,9 @@ func (e *c21env) connFn(dst string, _ *ClientOption) conn {
 func c21build(e *c21env) (Client, error) {
 	c := e.c
 	opt := &ClientOption{ReplicaOnly: c.RO, EnableReplicaAZInfo: c.AZ}
+	if c.ExpireAt > 0 {
+		opt.ConnLifetime = time.Hour
+	}
 	switch c.Pred {
 	case "nil":
 	case "ro":
@@ -483,7 +500,7 @@ func TestVerif_C21(t *testing.T) {
 		r.Rule = "modes {standalone+ReplicaAddress, sentinel, cluster (one shard)} with 1 primary + n replica fake nodes (mockConn) x SendToReplicas in {nil, cmd.IsReadOnly(), all 16 truth tables over the classes " +
 			"w=SET r=GET c=STRLEN.Cache() d=HGET.Cache()} x ReplicaOnly x selector {none, ReadNodeSelector, ReplicaSelector(cluster)} with scripted result {-1,0,1,2,len,len+7} x EnableReplicaAZInfo (standalone) x " +
 			"API {Do, DoStream over {r,w}; DoMulti, DoMultiStream over every class sequence up to the batch bound over {r,w}; DoCache over {c,d}; DoMultiCache over sequences over {c,d}; Receive(SUBSCRIBE), Receive(SSUBSCRIBE), Do(FLUSHALL)}. " +
-			"Oracle: a command whose opt-in (predicate true for it; for non-cluster batches true for every command of the batch; or ReplicaOnly) is false must be logged by the primary; if the selector's result is outside the list it was given, the primary; " +
+			"DoMulti additionally with ConnLifetime set and the connection's lifetime ending at every position of the batch (commands from there on answered errConnExpired once, to be re-sent). Oracle: a command whose opt-in (predicate true for it; for non-cluster batches true for every command of the batch; or ReplicaOnly) is false must be logged by the primary; if the selector's result is outside the list it was given, the primary; " +
 			"if it goes to a replica after a selector call, it is the replica the selector chose; each command is delivered exactly once; never to a replica reported s_down. non-trivial = predicate not nil."
 		r.Assume("opt-in only permits a replica, it does not force one (DoCache in standalone mode always uses the primary; this is accepted)")
 		r.Assume("cluster DoMultiStream sends the whole batch to one node and uses the conjunction of the predicate; accepted because each command then still satisfies 'replica only if the predicate is true for it'")
@@ -574,6 +591,19 @@ func TestVerif_C21(t *testing.T) {
 										r.Sample(c)
 									}
 									c21run(r, c)
+									if a.name == "DoMulti" {
+										for k := 1; k <= len(a.batch); k++ {
+											ce := *c
+											ce.ExpireAt = k
+											r.Evaluations++
+											id := c21json(&ce)
+											r.StateStr(id)
+											if pred != "nil" {
+												r.NonTrivialStr(id)
+											}
+											c21run(r, &ce)
+										}
+									}
 								}
 							}
 						}
